@@ -1,11 +1,24 @@
-(** C06: run() reaches quiescence; lazy after main; idle only on request (Layer R) -- PARTIAL for now.
-    Proved so far: the main-queue part is the FIFO list of C01 ([C01_exactly_once_fifo]: empty whenever run returns)
-    and virtual time / idle-first is C15.  The plain-closure conjunct C06_plain_ok is stated below as the target. *)
+(** C06: run() reaches quiescence; lazy after main; idle only on request (Layer R). *)
 From Coq Require Import ZArith NArith List.
 Import ListNotations.
-From Stk Require Import Lib.U R.Syntax R.Rt R.Mon R.C01Proofs.
+From Stk Require Import Lib.U R.Syntax R.Rt R.Mon R.C06Proofs.
 
-Theorem C06_main_quiescent_partial : forall (d : dkind) (p : list top) (fuel : nat) (t : list ev),
-  exec d fuel p = Done t -> ~ In (EModel M_DRAINLEFT 0) t -> C01_ok t = true.
-Proof. exact C01_proved. Qed.
-Print Assumptions C06_main_quiescent_partial.
+(* For every program, fuel and deferrer kind: the plain-closure conjunct of C06 holds of the trace of a terminated
+   execution of the model: the main, lazy and idle queues are FIFO lists; main and lazy are empty whenever run returns
+   (including work created while it ran); a lazy closure starts only with the main queue empty or inside a lazy batch
+   whose items made the pending work; the idle closure runs only with idle=true, at most one, before anything else; and
+   run returns true exactly when idle closures remain.
+   PARTIAL with respect to C06_ok = C06_plain_ok && C06_calls_ok: the second conjunct (actor calls travelling through
+   the main queue count as pending main-queue work unless their target is still in Prep) is validated on every real
+   and model trace by ./check C06 but not proved. *)
+Theorem C06_quiescence_lazy_idle_partial : forall (d : dkind) (p : list top) (fuel : nat) (t : list ev),
+  exec d fuel p = Done t -> C06_plain_ok t = true.
+Proof. exact C06_plain_proved. Qed.
+Print Assumptions C06_quiescence_lazy_idle_partial.
+
+Example C06_example :
+  exists t, exec DGlobal 400 [TNew 0; TDo [ALazy (Clo 1 0 0 [] [ADefer (Clo 2 0 0 [] []); ALazy (Clo 3 0 0 [] [])]);
+                                         AIdle (Clo 4 0 0 [] []); AIdle (Clo 5 0 0 [] []); ADefer (Clo 6 0 0 [] [])];
+                                  TRun 2 false; TRun 4 true] = Done t
+            /\ In (ERunRet true) t /\ In (ERun 1%N 2%Z QLazy) t /\ In (ERun 6%N 2%Z QLazy) t /\ In (ERun 2%N 2%Z QIdle) t.
+Proof. exact C06_nontrivial. Qed.
